@@ -39,7 +39,7 @@ pub fn main() {
         "C13" => twins("C13"),
         "TWINROWS" => {
             // helper of twins("C13"): print the rows of every twin world under the hash seed of this process
-            for (label, rows) in twin_rows("unspentcsvdump").into_iter().chain(twin_rows("balances")) {
+            for (label, _h, rows) in twin_rows("unspentcsvdump", false).into_iter().chain(twin_rows("balances", false)) {
                 println!("{}\t{}", label, rows.into_iter().collect::<Vec<_>>().join("|"));
             }
             return;
@@ -198,6 +198,8 @@ fn scripts(prop: &str) -> Report {
     shards_btc.push(long_templates());
     shards_btc.push(multisig_by_key_count());
     shards_fork.push(multisig_by_key_count());
+    shards_btc.push(count_sweeps(&bitcoin_templates()));
+    shards_fork.push(count_sweeps(&fork_templates()));
     shards_btc.push(decorated_templates(&bitcoin_templates()));
     shards_fork.push(decorated_templates(&fork_templates()));
     shards_fork.push(decorated_templates(&bitcoin_templates()));
@@ -609,73 +611,136 @@ fn replay(path: &str) -> i32 {
 
 type Rows = std::collections::BTreeSet<String>;
 
-/// For each twin variant: (label, data rows of the dump file) as produced by the real callback.
-fn twin_rows(callback: &str) -> Vec<(String, Rows)> {
+/// Spend histories over the four outputs of the twin transactions: every ordered selection of up to 3 of
+/// {F1:0, F1:1, F2:0, F2:1} (1 + 4 + 12 + 24 = 41 histories; `full` = false: the single history [F1:0]).
+fn twin_histories(full: bool) -> Vec<Vec<usize>> {
+    if !full {
+        return vec![vec![0]];
+    }
+    let mut v: Vec<Vec<usize>> = vec![vec![]];
+    let mut frontier: Vec<Vec<usize>> = vec![vec![]];
+    for _ in 0..3 {
+        let mut next = Vec::new();
+        for h in &frontier {
+            for o in 0..4usize {
+                if !h.contains(&o) {
+                    let mut n = h.clone();
+                    n.push(o);
+                    next.push(n);
+                }
+            }
+        }
+        v.extend(next.iter().cloned());
+        frontier = next;
+    }
+    v
+}
+
+/// One twin world: ids of F1 / F2 equal in bytes from..to, history `hist` (one block per spend). Returns the data rows of the
+/// dump file as produced by the real callback.
+fn twin_world_rows(callback: &str, root: &std::path::Path, vi: usize, from: usize, to: usize, hi: usize, hist: &[usize]) -> Rows {
     use crate::blockchain::parser::reader::BlockchainRead;
     use crate::blockchain::parser::types::CoinType;
     use bitcoin::hashes::{sha256d, Hash};
     use refmodel::ser::{Block as MBlock, Tx, TxIn, TxOut};
     use std::str::FromStr;
     let ct = CoinType::from_str("bitcoin").unwrap();
-    let root = refmodel::world::scratch_root();
-    let mut out = Vec::new();
-    // agreement regions: (from, to) = bytes in which the two ids are EQUAL
-    let regions: [(usize, usize); 8] = [(0, 8), (24, 32), (0, 16), (16, 32), (0, 31), (1, 32), (8, 24), (0, 0)];
-    for (vi, (from, to)) in regions.iter().enumerate() {
-        let mut id1 = [0u8; 32];
-        for (i, b) in id1.iter_mut().enumerate() {
-            *b = (i as u8).wrapping_mul(29).wrapping_add(0x41 + vi as u8);
-        }
-        let mut id2 = id1;
-        for i in 0..32 {
-            if i < *from || i >= *to {
-                id2[i] = !id2[i];
-            }
-        }
-        let pay = |seed: u8, v: u64| TxOut { value: v, script: rs::p2pkh(&rs::h20(seed)) };
-        // block 1: coinbase, F1 (-> addresses 1, 2), F2 (-> addresses 3, 2); block 2: coinbase, S spends F1:0 and pays address 4
-        let f1 = Tx { version: 1, segwit: false, inputs: vec![TxIn::spend([0xe1; 32], 0)], outputs: vec![pay(1, 100), pay(2, 200)], locktime: 0, wide: 0 };
-        let f2 = Tx { version: 1, segwit: false, inputs: vec![TxIn::spend([0xe2; 32], 0)], outputs: vec![pay(3, 300), pay(2, 400)], locktime: 1, wide: 0 };
-        let sp = Tx { version: 1, segwit: false, inputs: vec![TxIn::spend(id1, 0)], outputs: vec![pay(4, 50)], locktime: 2, wide: 0 };
-        let cb1 = Tx { version: 1, segwit: false, inputs: vec![TxIn::coinbase(vec![1, 1])], outputs: vec![pay(9, 5000)], locktime: 0, wide: 0 };
-        let cb2 = Tx { version: 1, segwit: false, inputs: vec![TxIn::coinbase(vec![2, 2])], outputs: vec![pay(8, 5000)], locktime: 0, wide: 0 };
-        let b1 = MBlock::build(1, [7u8; 32], 1_600_000_000, 0x1d00ffff, 5, vec![cb1, f1, f2]);
-        let b2 = MBlock::build(1, b1.hash(), 1_600_000_600, 0x1d00ffff, 6, vec![cb2, sp]);
-        let parse = |b: &MBlock| {
-            let raw = b.ser();
-            let mut cur = std::io::Cursor::new(raw.clone());
-            cur.read_block(raw.len() as u32, &ct).expect("model block must parse")
-        };
-        let (mut p1, p2) = (parse(&b1), parse(&b2));
-        p1.txs[1].hash = sha256d::Hash::from_byte_array(id1);
-        p1.txs[2].hash = sha256d::Hash::from_byte_array(id2);
-        let dump = root.join(format!("twin-{}-{}", callback, vi));
-        let _ = std::fs::remove_dir_all(&dump);
-        std::fs::create_dir_all(&dump).unwrap();
-        let argv: Vec<String> = vec!["rusty-blockparser".into(), "-d".into(), dump.display().to_string(), callback.into(), dump.display().to_string()];
-        let mut options = crate::parse_args(crate::command().get_matches_from(argv)).expect("options");
-        let cbk = &mut options.callback;
-        cbk.on_start(1).expect("on_start");
-        cbk.on_block(&p1, 1).expect("on_block");
-        cbk.on_block(&p2, 2).expect("on_block");
-        cbk.on_complete(2).expect("on_complete");
-        let mut rows = Rows::new();
-        for (name, content) in refmodel::run::read_dir_files(&dump) {
-            if name.ends_with(".csv") {
-                rows.extend(String::from_utf8_lossy(&content).lines().skip(1).map(|l| l.to_string()));
-            }
-        }
-        out.push((format!("{} ids equal in bytes {}..{}", callback, from, to), rows));
-        let _ = std::fs::remove_dir_all(&dump);
+    let mut id1 = [0u8; 32];
+    for (i, b) in id1.iter_mut().enumerate() {
+        *b = (i as u8).wrapping_mul(29).wrapping_add(0x41 + vi as u8);
     }
+    let mut id2 = id1;
+    for i in 0..32 {
+        if i < from || i >= to {
+            id2[i] = !id2[i];
+        }
+    }
+    let pay = |seed: u8, v: u64| TxOut { value: v, script: rs::p2pkh(&rs::h20(seed)) };
+    // block 1: coinbase, F1 (-> addresses 1, 2), F2 (-> addresses 3, 2); block 2+k: coinbase, S_k spends the k-th outpoint of the
+    // history and pays address 4
+    let f1 = Tx { version: 1, segwit: false, inputs: vec![TxIn::spend([0xe1; 32], 0)], outputs: vec![pay(1, 100), pay(2, 200)], locktime: 0, wide: 0 };
+    let f2 = Tx { version: 1, segwit: false, inputs: vec![TxIn::spend([0xe2; 32], 0)], outputs: vec![pay(3, 300), pay(2, 400)], locktime: 1, wide: 0 };
+    let cb1 = Tx { version: 1, segwit: false, inputs: vec![TxIn::coinbase(vec![1, 1])], outputs: vec![pay(9, 5000)], locktime: 0, wide: 0 };
+    let b1 = MBlock::build(1, [7u8; 32], 1_600_000_000, 0x1d00ffff, 5, vec![cb1, f1, f2]);
+    let parse = |b: &MBlock| {
+        let raw = b.ser();
+        let mut cur = std::io::Cursor::new(raw.clone());
+        cur.read_block(raw.len() as u32, &ct).expect("model block must parse")
+    };
+    let mut p1 = parse(&b1);
+    p1.txs[1].hash = sha256d::Hash::from_byte_array(id1);
+    p1.txs[2].hash = sha256d::Hash::from_byte_array(id2);
+    let mut later = Vec::new();
+    let mut prev = b1.hash();
+    for (k, o) in hist.iter().enumerate() {
+        let k = k as u64;
+        let sp = Tx { version: 1, segwit: false, inputs: vec![TxIn::spend(if *o < 2 { id1 } else { id2 }, (*o % 2) as u32)], outputs: vec![pay(4, 50 + k)], locktime: 2 + k as u32, wide: 0 };
+        let cbk = Tx { version: 1, segwit: false, inputs: vec![TxIn::coinbase(vec![2 + k as u8, 2])], outputs: vec![pay(8, 5001 + k)], locktime: 0, wide: 0 };
+        let b = MBlock::build(1, prev, 1_600_000_600 + 600 * k as u32, 0x1d00ffff, 6 + k as u32, vec![cbk, sp]);
+        prev = b.hash();
+        later.push(parse(&b));
+    }
+    let dump = root.join(format!("twin-{}-{}-{}", callback, vi, hi));
+    let _ = std::fs::remove_dir_all(&dump);
+    std::fs::create_dir_all(&dump).unwrap();
+    let argv: Vec<String> = vec!["rusty-blockparser".into(), "-d".into(), dump.display().to_string(), callback.into(), dump.display().to_string()];
+    let mut options = crate::parse_args(crate::command().get_matches_from(argv)).expect("options");
+    let cbk = &mut options.callback;
+    cbk.on_start(1).expect("on_start");
+    cbk.on_block(&p1, 1).expect("on_block");
+    for (k, b) in later.iter().enumerate() {
+        cbk.on_block(b, 2 + k as u64).expect("on_block");
+    }
+    cbk.on_complete(1 + later.len() as u64).expect("on_complete");
+    let mut rows = Rows::new();
+    for (name, content) in refmodel::run::read_dir_files(&dump) {
+        if name.ends_with(".csv") {
+            rows.extend(String::from_utf8_lossy(&content).lines().skip(1).map(|l| l.to_string()));
+        }
+    }
+    let _ = std::fs::remove_dir_all(&dump);
+    rows
+}
+
+/// For each twin variant and history: (label, history, data rows of the dump file) as produced by the real callback.
+fn twin_rows(callback: &str, full: bool) -> Vec<(String, Vec<usize>, Rows)> {
+    let root = refmodel::world::scratch_root();
+    // agreement regions: (from, to) = bytes in which the two ids are EQUAL; 27 bits = the first 3 bytes and 3 bits, so (0,4) and
+    // (28,32) are the regions any 32-bit slot / fingerprint / prefix table would use
+    let regions: [(usize, usize); 10] = [(0, 8), (24, 32), (0, 16), (16, 32), (0, 31), (1, 32), (8, 24), (0, 0), (0, 4), (28, 32)];
+    let hists = twin_histories(full);
+    let mut jobs = Vec::new();
+    for (vi, (from, to)) in regions.iter().enumerate() {
+        for (hi, h) in hists.iter().enumerate() {
+            jobs.push((vi, *from, *to, hi, h.clone()));
+        }
+    }
+    let next = std::sync::atomic::AtomicUsize::new(0);
+    let out = std::sync::Mutex::new(Vec::new());
+    let nthreads = if full { 16 } else { 1 };
+    std::thread::scope(|sc| {
+        for _ in 0..nthreads {
+            sc.spawn(|| loop {
+                let i = next.fetch_add(1, std::sync::atomic::Ordering::SeqCst);
+                if i >= jobs.len() {
+                    break;
+                }
+                let (vi, from, to, hi, h) = &jobs[i];
+                let rows = twin_world_rows(callback, &root, *vi, *from, *to, *hi, h);
+                out.lock().unwrap().push((i, format!("{} ids equal in bytes {}..{} history {:?}", callback, from, to, h), h.clone(), rows));
+            });
+        }
+    });
     let _ = std::fs::remove_dir_all(&root);
-    out
+    let mut v = out.into_inner().unwrap();
+    v.sort_by_key(|x| x.0);
+    v.into_iter().map(|(_, l, h, r)| (l, h, r)).collect()
 }
 
 fn twins(prop: &str) -> Report {
     let mut rep = Report::new(prop, "e2");
-    rep.rule = "a two-block history (coinbase, F1, F2 | coinbase, S spending F1:0) parsed by the repository's reader and handed to the real unspentcsvdump / balances callbacks after the ids of F1 and F2 were replaced by twins that are equal in their first 8, last 8, first 16, last 16, first 31, last 31, middle 16 or no bytes: F1:1, both outputs of F2, S:0 and the coinbases must be listed (C07), balances are their per-address sums (C08), and the rows are the same under 10 hash seeds (C13); non-trivial = distinct (callback, twin variant)".into();
-    rep.bound = json!({"twin_variants": 8, "callbacks": 2});
+    rep.rule = "spend histories over transaction ids that agree in most of their bytes: block 1 = coinbase, F1, F2 (two outputs each); then EVERY ordered selection of up to 3 of the outpoints {F1:0, F1:1, F2:0, F2:1} is spent, one block per spend (41 histories); blocks are parsed by the repository's reader and handed to the real unspentcsvdump / balances callbacks after the ids of F1 and F2 were replaced by twins that are equal in their first 8, last 8, first 16, last 16, first 31, last 31, middle 16, first 4, last 4 or no bytes; the rows must be exactly the outputs not spent by the history (C07), balances their per-address sums (C08), and for the single history [F1:0] the rows are the same under 10 hash seeds (C13); non-trivial = distinct (callback, twin variant, history)".into();
+    rep.bound = json!({"twin_variants": 10, "histories": 41, "callbacks": 2});
     rep.assumptions = vec!["ids are replaced after parsing (public fields of the parsed block); the callbacks cannot tell".into()];
     if prop == "C13" {
         // the same worlds in child processes under different hash seeds (std's HashMap keys come from getrandom)
@@ -694,8 +759,8 @@ fn twins(prop: &str) -> Report {
                     return rep;
                 }
             }
-            rep.states += 16;
-            rep.transitions += 16;
+            rep.states += 20;
+            rep.transitions += 20;
         }
         for (seed, text) in &by_seed[1..] {
             if text != &by_seed[0].1 {
@@ -711,35 +776,62 @@ fn twins(prop: &str) -> Report {
         return rep;
     }
     let callback = if prop == "C07" { "unspentcsvdump" } else { "balances" };
-    let got = match std::panic::catch_unwind(|| twin_rows(callback)) {
+    let got = match std::panic::catch_unwind(|| twin_rows(callback, true)) {
         Ok(g) => g,
         Err(_) => {
             rep.disagree("twin-ids:callback-panicked", callback.to_string(), json!({"kind": "twin-ids"}));
             return rep;
         }
     };
-    for (label, rows) in got {
+    let mut outcomes = std::collections::BTreeSet::new();
+    for (label, hist, rows) in got {
         rep.states += 1;
         rep.transitions += 1;
         rep.nontrivial.insert(h8(label.as_bytes()));
-        // expectation: which outputs are unspent does not depend on the ids' bytes
-        let n_expected = if prop == "C07" { 6 } else { 5 };
+        // expectation: which outputs are unspent does not depend on the ids' bytes.
+        // outputs: (value, address seed); F1:0, F1:1, F2:0, F2:1, then per history step a coinbase (5001+k -> 8) and S_k (50+k -> 4)
+        let f = [(100u64, 1u8), (200, 2), (300, 3), (400, 2)];
+        let mut live: Vec<(u64, u8)> = vec![(5000, 9)];
+        for (o, x) in f.iter().enumerate() {
+            if !hist.contains(&o) {
+                live.push(*x);
+            }
+        }
+        for k in 0..hist.len() as u64 {
+            live.push((5001 + k, 8));
+            live.push((50 + k, 4));
+        }
         let ok = if prop == "C07" {
-            // rows: txid;indexOut;height;value;address - F1:1 (200), F2:0 (300), F2:1 (400), S:0 (50), two coinbases (5000)
-            let mut values: Vec<String> = rows.iter().map(|r| r.split(';').nth(3).unwrap_or("").to_string()).collect();
+            // rows: txid;indexOut;height;value;address
+            let mut values: Vec<u64> = rows.iter().filter_map(|r| r.split(';').nth(3).and_then(|v| v.parse().ok())).collect();
             values.sort();
+            let mut want: Vec<u64> = live.iter().map(|x| x.0).collect();
+            want.sort();
             let ids: std::collections::BTreeSet<&str> = rows.iter().map(|r| r.split(';').next().unwrap_or("")).collect();
-            values == vec!["200", "300", "400", "50", "5000", "5000"] && ids.len() == 5
+            let mut want_ids = 1 + 2 * hist.len();
+            for t in 0..2usize {
+                if !(hist.contains(&(2 * t)) && hist.contains(&(2 * t + 1))) {
+                    want_ids += 1;
+                }
+            }
+            values == want && ids.len() == want_ids && rows.len() == want.len()
         } else {
-            // address 1 spent; address 2: 200 + 400; address 3: 300; address 4: 50; coinbase addresses 9 and 8: 5000 each
-            let mut values: Vec<String> = rows.iter().map(|r| r.split(';').nth(1).unwrap_or("").to_string()).collect();
+            let mut sums: std::collections::BTreeMap<u8, u64> = std::collections::BTreeMap::new();
+            for (v, a) in &live {
+                *sums.entry(*a).or_insert(0) += v;
+            }
+            let mut want: Vec<u64> = sums.values().cloned().collect();
+            want.sort();
+            let mut values: Vec<u64> = rows.iter().filter_map(|r| r.split(';').nth(1).and_then(|v| v.parse().ok())).collect();
             values.sort();
-            values == vec!["300", "50", "5000", "5000", "600"]
+            values == want && rows.len() == want.len()
         };
-        if !ok || rows.len() != n_expected {
+        outcomes.insert(rows.len());
+        if !ok {
             rep.disagree(&format!("twin-ids:{}-rows-wrong", callback), format!("{}: rows {:?}", label, rows), json!({"kind": "twin-ids", "variant": label}));
         }
     }
+    rep.count("distinct-row-counts", outcomes.len() as u64);
     rep
 }
 
